@@ -530,6 +530,8 @@ def c19(run):
                 "decoded real dump: one disassembly line per instruction at its offset with the right mnemonic, one trace pair per executed instruction (offset, mnemonic, "
                 "operand depth), as many as xstats.opsRead, counters as the machine computes them. Non-trivial = every program (distinct by source).")
     q = run.quick
+    # code longer than 9 999 bytes (a fifth digit in the offset column): offset and mnemonic of every line written out by the specification
+    run.gen_replay("Gen_Listing", cfg(invariants=("Emit",)), ["replay-listing"], "C19:listing", workers=2)
     srcs = [("Gen_Total", cfg(constants=dict(Scope="varscale", MaxLen=1), invariants=("Emit",)), {}),
             ("Gen_Prog", gen_cfg(dict(Scope="bind", MaxItems=3)), {}),
             ("Gen_Prog", gen_cfg(dict(Scope="blocks", MaxItems=2)), {}),
